@@ -310,13 +310,21 @@ def _rand_val(rng, lo=1e-3, hi=1e5, signed=True):
     return float(f"{x:.9g}")
 
 
-def gen_energy_data(rng, tier, small=False, shape=None):
+def gen_energy_data(rng, tier, small=False, shape=None, narrow=False):
     """an arbitrary phonon data set for write_energy (C17): counts 1-12 / 1-10 / 3-60, either sign, up to 1e5"""
     nv = rng.randint(1, 4 if small else 12)
     nq = rng.randint(1, 3 if small else 10)
     np_ = rng.randint(3, 9 if small else 60)
     if shape is not None:
         nv, nq, np_ = shape
+    if narrow:      # every value fits the writer's 12-character field: two data sets of one shape then give files of exactly the same size
+        import functools
+        rv = functools.partial(_rand_val, hi=9.0e3)
+        return {"nv": nv, "nq": nq, "np": np_, "nm": rng.randint(1, 9), "na": rng.randint(1, 20), "narrow": True,
+                "pressures": [rv(rng) for _ in range(nv)], "volumes": [rv(rng) for _ in range(nv)], "energies": [rv(rng) for _ in range(nv)],
+                "qcoords": [[round(rng.uniform(-1, 1), 4) for _ in range(3)] for _ in range(nq)],
+                "weights": [_rand_val(rng, 1e-2, 1e3) for _ in range(nq)],
+                "freqs": [[[(rv(rng, 1e-2) if rng.random() < 0.9 else 0.0) for _ in range(np_)] for _ in range(nq)] for _ in range(nv)]}
     d = {"nv": nv, "nq": nq, "np": np_, "nm": rng.randint(1, 9), "na": rng.randint(1, 20),
          "pressures": [_rand_val(rng) for _ in range(nv)], "volumes": [_rand_val(rng) for _ in range(nv)],
          "energies": [_rand_val(rng) for _ in range(nv)],
@@ -344,17 +352,29 @@ def gen_program_c17(rng, name, world, tier):
         elif r < 0.65:
             if paths and rng.random() < 0.4:
                 p = rng.choice(paths)      # overwrite an existing file: often with a smaller data set, or with other values of the same shape
+                comment = rng.choice([None, "written by the simulator", "QHA data 1 2 3"])
                 if rng.random() < 0.45:    # (the fixed-width writer then produces a file of exactly the same size)
-                    d = gen_energy_data(rng, tier, shape=(last[p]["nv"], last[p]["nq"], last[p]["np"]))
+                    d = gen_energy_data(rng, tier, shape=(last[p]["nv"], last[p]["nq"], last[p]["np"]), narrow=bool(last[p].get("narrow")))
+                    comment = last[p].get("_comment")
                 else:
                     d = gen_energy_data(rng, tier, small=rng.random() < 0.6)
             else:
                 p = f"we_{name.lower()}{len(paths)}.dat"
                 paths.append(p)
-                d = gen_energy_data(rng, tier, small=rng.random() < 0.3)
-            last[p] = d
+                d = gen_energy_data(rng, tier, small=rng.random() < 0.3, narrow=rng.random() < 0.5)
+                comment = rng.choice([None, "written by the simulator", "QHA data 1 2 3"])
+            same_size_shape = bool(last.get(p)) and d.get("narrow") and last[p].get("narrow") and (last[p]["nv"], last[p]["nq"], last[p]["np"]) == (d["nv"], d["nq"], d["np"])
+            last[p] = dict(d, _comment=comment)
+            if same_size_shape and rng.random() < 0.6:
+                # read, overwrite with other numbers of the same size within the same simulated second, read again
+                prog.append({"op": "io.read_energy", "path": p, "abs": rng.random() < 0.5, "expect_ok": True})
+                prog.append({"op": "io.write_energy", "path": p, "data": d, "abs": rng.random() < 0.5, "comment": comment, "expect_ok": True, "notick": True})
+                prog.append({"op": "io.read_energy", "path": p, "abs": rng.random() < 0.5, "expect_ok": True, "notick": True})
+                continue
             prog.append({"op": "io.write_energy", "path": p, "data": d, "abs": rng.random() < 0.5,
-                         "comment": rng.choice([None, "written by the simulator", "QHA data 1 2 3"]), "expect_ok": True})
+                         "comment": comment, "expect_ok": True})
+            if rng.random() < 0.5:        # write, read back, overwrite, read back: the shape in which a stale copy of the first version can be served
+                prog.append({"op": "io.read_energy", "path": p, "abs": rng.random() < 0.5, "expect_ok": True})
         elif r < 0.85 and paths:
             prog.append({"op": "io.read_energy", "path": rng.choice(paths), "abs": rng.random() < 0.5, "expect_ok": True})
         elif world["static"].get("cli_ok", True):
@@ -739,13 +759,16 @@ def add_segments(rng, schedule, programs):
             if _seg_pair_ok(programs[a][ia], programs[b][ib]):
                 nsw = rng.choice([1, 2, 3, 5, 8, 13, 40])
                 sw = [int(10 ** rng.uniform(0, 3.6)) for _ in range(nsw)]
+                # ping-pong switch points (negative count): the other thread runs until it is a few lines into the very function the first one was
+                # stopped in, then hands the baton back -- both threads inside one function at once, the situation in which shared scratch state bites
+                sw = [(-x if rng.random() < 0.4 else x) for x in sw]
                 # a share of the switch points is aimed: hand over at the n-th line the running thread executes inside a named function
                 aims = AIM.get(programs[a][ia]["op"], []) + AIM.get(programs[b][ib]["op"], [])
                 if aims:
                     for j in range(len(sw)):
                         if rng.random() < 0.35:
                             f = rng.choice(aims)
-                            sw[j] = [f[0], f[1], rng.choice([1, 2, 2, 3, 4, 5, 8, 13])]
+                            sw[j] = [f[0], f[1], rng.choice([1, 2, 2, 3, 4, 5, 8, 13])] + ([rng.randint(1, 7)] if rng.random() < 0.5 else [])
                 out.append({"par": [a, b], "switches": sw})
                 made += 1
                 k += 2
@@ -816,7 +839,7 @@ def gen_scenario(prop, seed, tier, faults_enabled=None, nclients=None, segments_
                     op["abs"] = True
     for n in names:          # the simulated clock (file timestamps) advances before some operations, and only then
         for op in programs[n]:
-            if rng.random() < 0.25:
+            if rng.random() < 0.25 and not op.get("notick"):
                 op["tick"] = rng.choice([1, 1, 2, 3, 60, 3600, 86400, -1, -3600])    # negative: the clock is stepped back
     for n in names:          # geotherm files get unique names per client
         for k, op in enumerate(programs[n]):
